@@ -524,6 +524,18 @@ pub fn check_builtin(c: &Builtin) -> Outcome {
     if !agree(&rm, &rf) {
         return fail(format!("`{m}` gives {} but `{f}` gives {} (r = {:?}, args = {:?})", rm.show(), rf.show(), c.recv, c.args));
     }
+    // the receiver and arguments written out as literals: still the same result in both styles, and the same as with variables
+    if let (Some(rl), Some(al)) = (crate::model::lit::lit(&c.recv), c.args.iter().map(crate::model::lit::lit).collect::<Option<Vec<String>>>()) {
+        let lm = format!("{rl}.{}({})", c.func, al.join(", "));
+        let lf = format!("{}({})", c.func, std::iter::once(rl.clone()).chain(al.iter().cloned()).collect::<Vec<_>>().join(", "));
+        let (ym, yf) = match (run(&lm), run(&lf)) {
+            (Ok(a), Ok(b)) => (a, b),
+            (Err(e), _) | (_, Err(e)) => return fail(e),
+        };
+        if ym.is_panic() || yf.is_panic() || !agree(&ym, &yf) || !agree(&ym, &rm) {
+            return fail(format!("with literal operands `{lm}` gives {} and `{lf}` gives {}, with variables `{m}` gives {} (r = {:?}, args = {:?})", ym.show(), yf.show(), rm.show(), c.recv, c.args));
+        }
+    }
     // the same two calls inside a macro body, with the iteration variable as receiver / as argument: still the same result
     {
         let (mm, mf) = if c.args.len() == 1 {
@@ -675,8 +687,15 @@ pub fn run(r: &mut Runner) {
                 fixed.push(HostCall { sig: si, recv: None, args, override_builtin: None });
             }
         }
+        {
+            let si = all.iter().position(|s| s.name == "va").unwrap();
+            for l in [V::List(vec![V::Int(1), V::Int(2), V::Int(3)]), V::List(vec![]), V::List(vec![V::List(vec![V::Int(1)])]), V::Map(vec![(V::s("a"), V::Int(1))])] {
+                fixed.push(HostCall { sig: si, recv: None, args: vec![Arg::Val(l.clone())], override_builtin: None });
+                fixed.push(HostCall { sig: si, recv: Some(l.clone()), args: vec![Arg::Val(l)], override_builtin: None });
+            }
+        }
         for b in ["size", "contains", "startsWith", "endsWith", "matches", "string", "max", "getHours", "has", "all", "exists", "map", "filter", "exists_one"] {
-            for (name, args, recv) in [("k_v", vec![Arg::Val(V::s("abc"))], None), ("t_v", vec![], Some(V::s("abc"))), ("t_s_s", vec![Arg::Val(V::s("a"))], Some(V::s("abc"))), ("va", vec![Arg::Val(V::Int(1)), Arg::Val(V::Int(2))], None), ("va", vec![Arg::Val(V::s("x")), Arg::Val(V::s("y")), Arg::Val(V::s("z"))], None), ("k_vv", vec![Arg::Val(V::s("foobar")), Arg::Val(V::s("foo"))], None), ("k0", vec![], None)] {
+            for (name, args, recv) in [("k_v", vec![Arg::Val(V::s("abc"))], None), ("t_v", vec![], Some(V::s("abc"))), ("t_s_s", vec![Arg::Val(V::s("a"))], Some(V::s("abc"))), ("va", vec![Arg::Val(V::Int(1)), Arg::Val(V::Int(2))], None), ("va", vec![Arg::Val(V::s("x")), Arg::Val(V::s("y")), Arg::Val(V::s("z"))], None), ("va", vec![Arg::Val(V::List(vec![V::Int(1), V::Int(2), V::Int(3)]))], None), ("va", vec![Arg::Val(V::List(vec![]))], None), ("k_vv", vec![Arg::Val(V::s("foobar")), Arg::Val(V::s("foo"))], None), ("k0", vec![], None)] {
                 let si = all.iter().position(|s| s.name == name).unwrap();
                 fixed.push(HostCall { sig: si, recv, args, override_builtin: Some(b.to_string()) });
             }
